@@ -29,11 +29,22 @@ import (
 	"time"
 )
 
-const (
+const repoDir = "/repo"
+
+// verifDir is /verif unless VCHECK_DIR says otherwise (background runs from a
+// snapshot of /verif use their own directory and their own scratch space).
+var (
 	verifDir   = "/verif"
-	repoDir    = "/repo"
 	scratchDir = "/tmp/elksim"
 )
+
+func init() {
+	if d := os.Getenv("VCHECK_DIR"); d != "" && d != "/verif" {
+		verifDir = d
+		sum := sha256.Sum256([]byte(d))
+		scratchDir = "/tmp/elksim-" + hex.EncodeToString(sum[:4])
+	}
+}
 
 var goBin string
 
@@ -209,6 +220,9 @@ func ensureBuild(verbose bool) {
 		hsrc, _ := filepath.Glob(filepath.Join(verifDir, "sim/harness/*"))
 		for _, f := range hsrc {
 			if b, err := os.ReadFile(f); err == nil {
+				if filepath.Base(f) == "go.mod" {
+					b = bytes.ReplaceAll(b, []byte("/tmp/elksim/copy"), []byte(copyDir))
+				}
 				os.WriteFile(filepath.Join(hdir, filepath.Base(f)), b, 0o644)
 			}
 		}
